@@ -41,6 +41,7 @@ func verifPopulate(st *State) {
 	st.App.SetCoinsCount(2)
 	st.App.SetTotalSlashed(verifAmount("slashed", 3))
 	st.App.SetMaxGas(7000)
+	st.App.SetReward(verifAmount("reward0", 100), verifAmount("rewardsafe0", 333))
 	owner := A
 	st.Coins.Create(1, types.StrToCoinSymbol("AAA"), "coin a", verifAmount("vol1", 5000), 50, verifAmount("res1", 20000), verifE18(1000000), &owner)
 	st.Coins.CreateToken(2, types.StrToCoinSymbol("TOK"), "token", true, true, verifAmount("vol2", 700), verifE18(1000000), &owner)
@@ -120,6 +121,9 @@ func verifObserve(st *State) *verifView {
 	v.add("app.slashed", st.App.GetTotalSlashed())
 	v.add("app.coins", u(uint64(st.App.GetCoinsCount())))
 	v.add("app.maxgas", u(st.App.GetMaxGas()))
+	rew, safe := st.App.Reward()
+	v.add("app.reward", rew)
+	v.add("app.rewardsafe", safe)
 	for _, c := range []types.CoinID{1, 2} {
 		m := st.Coins.GetCoin(c)
 		v.add("coin.vol."+c.String(), m.Volume())
@@ -252,6 +256,9 @@ func verifBlock2(st *State) {
 		st.Candidates.EditCommission(P, 10, 150)
 	case 6: // candidate addresses
 		st.Candidates.Edit(Q, A, A, A)
+	case 8: // a reward update that leaves the price-derived (safe) level as it was
+		_, safe := st.App.Reward()
+		st.App.SetReward(verifAmount("reward1", 110), safe)
 	case 7: // replaced public keys: three entries in the block list
 		for k := byte(3); k <= 5; k++ {
 			st.Candidates.ChangePubKey(verifK(k), verifK(k+10))
